@@ -194,13 +194,24 @@ def run_clause(cl, rng, n, driver, stats, replay_input=None):
     return failures, len(inputs), len(seen), samples
 
 
-def _tie_audit(pid):
-    """which model definitions named in this property's theorem statements the driver executes (tools/tie_audit.py)"""
+def _tie_audit(pid, live=False):
+    """which model definitions named in this property's theorem statements the driver executes (tools/tie_audit.py);
+    thorough tier: computed on the spot from the compiled environment (lean/TieAudit.lean, ~15 s), quick tier: the committed record"""
     try:
-        j = json.load(open(os.path.join(VERIF, "lean", "tie_audit.json")))[pid]
+        j = None
+        if live:
+            import subprocess
+            p = subprocess.run(["lake", "env", "lean", "TieAudit.lean"], cwd=os.path.join(VERIF, "lean"), capture_output=True, text=True,
+                               timeout=600, env=dict(os.environ, TIE_ONLY=pid))
+            for ln in p.stdout.splitlines():
+                if ln.startswith("{"):
+                    j = json.loads(ln)
+        src = "lean/TieAudit.lean run by this check" if j else "lean/tie_audit.json (tools/tie_audit.py --write)"
+        if j is None:
+            j = json.load(open(os.path.join(VERIF, "lean", "tie_audit.json")))[pid]
         return {"model_defs_in_theorem_statements": j["model_defs_in_statements"], "executed_by_driver": j["executed_by_driver"],
                 "bridged_by_proved_equation": len(j["bridged"]), "classified_spec_or_contract": j["classified"],
-                "untied": j["untied"], "from": "lean/tie_audit.json (tools/tie_audit.py --write)"}
+                "untied": j["untied"], "from": src}
     except Exception:
         return None
 
@@ -402,7 +413,7 @@ def _main(a, pid, tier, seed, t0):
         "repo": REPO,
         "changed_anchors": None if changed_anchors is None else [list(x) for x in changed_anchors][:40],
         "anchor_rounds": anchor_rounds,
-        "tie_audit": _tie_audit(pid),
+        "tie_audit": _tie_audit(pid, live=(tier == "thorough" and not a.skip_lean)),
     }
     evd = {"property_id": pid, "tier": tier if tier in ("quick", "thorough") else "quick", "seed": seed, "level": level,
            "coverage": cov, "assumptions": getattr(mod, "ASSUMPTIONS", []), "wall_s": round(wall, 2),
